@@ -91,6 +91,39 @@ def wrap(val, tk):
     return val
 
 
+_WHITE_SPACE = {9, 10, 11, 12, 13, 32, 0x85, 0xA0, 0x1680, 0x2028, 0x2029, 0x202F, 0x205F, 0x3000} | set(range(0x2000, 0x200B))
+UNICODE_MODEL_LIMIT = 0x250      # the model is validated exhaustively against rustc below this code point (enginetest u_*)
+UNICODE_MODEL_EXTRA = {0x20AC, 0x2C7}   # plus individually validated characters that keyboard layouts use
+
+
+def unicode_model(what, cp):
+    """Unicode properties / case mappings of `char` methods whose tables live in non-inlinable library functions.
+    Python's unicodedata stands in for core's tables only where the two were compared exhaustively."""
+    import unicodedata
+    limit = 0x100 if what.startswith('to_') else UNICODE_MODEL_LIMIT   # new capitals keep being added for old small letters (U+019B got one in Unicode 16)
+    if not (0 <= cp < limit or cp in UNICODE_MODEL_EXTRA):
+        raise Undecided('Unicode property of U+%04X is outside the validated range of the model' % cp)
+    ch = chr(cp)
+    cat = unicodedata.category(ch)
+    if what == 'alphabetic':
+        return int(cat in ('Lu', 'Ll', 'Lt', 'Lm', 'Lo', 'Nl'))
+    if what == 'lowercase':
+        return int(ch.islower())
+    if what == 'uppercase':
+        return int(ch.isupper())
+    if what == 'n':
+        return int(cat in ('Nd', 'Nl', 'No'))
+    if what == 'white_space':
+        return int(cp in _WHITE_SPACE)
+    if what == 'cc':
+        return int(cat == 'Cc')
+    if what.startswith('to_upper') or what.startswith('to_lower'):
+        m = ch.upper() if what.startswith('to_upper') else ch.lower()
+        i = int(what[-1])
+        return ord(m[i]) if i < len(m) else 0
+    raise Undecided('Unicode property %s is not modelled' % what)
+
+
 def apply_op(op, xs, tks, rtk):
     """Concrete semantics of one term operator on python ints."""
     if op == 'Cast':
@@ -107,6 +140,8 @@ def apply_op(op, xs, tks, rtk):
     if op == 'CountOnes':
         bits, _ = INT_TYPES[tks[0]]
         return bin(xs[0] & ((1 << bits) - 1)).count('1')
+    if op.startswith('Uni:'):
+        return unicode_model(op[4:], xs[0])
     if op in ('Ctlz', 'Cttz', 'Bswap', 'BitRev'):
         bits, _ = INT_TYPES[tks[0]]
         u = xs[0] & ((1 << bits) - 1)
@@ -277,12 +312,39 @@ SHIM_MAP = {
     "core::array::<impl core::iter::IntoIterator for &'a mut [T; N]>::into_iter": 'slice_iter_mut',
     "core::slice::iter::<impl core::iter::IntoIterator for &'a mut [T]>::into_iter": 'slice_iter_mut',
     "<core::slice::IterMut<'a, T> as core::iter::Iterator>::next": 'iter_mut_next',
+    'core::array::iter::<impl core::iter::IntoIterator for [T; N]>::into_iter': 'array_into_iter',
+    'core::char::CaseMappingIter::new': 'case_mapping_iter_new',
+    '<core::array::IntoIter<T, N> as core::iter::Iterator>::next': 'arr_iter_next',
+    '<core::array::IntoIter<T, N> as core::iter::DoubleEndedIterator>::next_back': 'arr_iter_next_back',
+    '<core::array::IntoIter<T, N> as core::iter::Iterator>::size_hint': 'arr_iter_size_hint',
+    '<core::array::IntoIter<T, N> as core::iter::ExactSizeIterator>::len': 'arr_iter_len',
+    '<core::array::IntoIter<T, N> as core::iter::Iterator>::count': 'arr_iter_count',
+    '<core::array::IntoIter<T, N> as core::iter::Iterator>::last': 'arr_iter_last',
+    '<core::array::IntoIter<T, N> as core::iter::Iterator>::fold': 'arr_iter_fold',
+    '<core::array::IntoIter<T, N> as core::iter::DoubleEndedIterator>::rfold': 'arr_iter_rfold',
+    '<core::array::IntoIter<T, N> as core::iter::Iterator>::nth': 'arr_iter_nth',
+    '<core::char::ToUppercase as core::iter::Iterator>::next': 'case_next',
+    '<core::char::ToUppercase as core::iter::DoubleEndedIterator>::next_back': 'case_next_back',
+    '<core::char::ToUppercase as core::iter::Iterator>::size_hint': 'case_size_hint',
+    '<core::char::ToUppercase as core::iter::ExactSizeIterator>::len': 'case_len',
+    '<core::char::ToUppercase as core::iter::Iterator>::count': 'case_count',
+    '<core::char::ToUppercase as core::iter::Iterator>::last': 'case_last',
+    '<core::char::ToUppercase as core::iter::Iterator>::fold': 'case_fold',
+    '<core::char::ToLowercase as core::iter::Iterator>::next': 'case_next',
+    '<core::char::ToLowercase as core::iter::DoubleEndedIterator>::next_back': 'case_next_back',
+    '<core::char::ToLowercase as core::iter::Iterator>::size_hint': 'case_size_hint',
+    '<core::char::ToLowercase as core::iter::ExactSizeIterator>::len': 'case_len',
+    '<core::char::ToLowercase as core::iter::Iterator>::count': 'case_count',
+    '<core::char::ToLowercase as core::iter::Iterator>::last': 'case_last',
+    '<core::char::ToLowercase as core::iter::Iterator>::fold': 'case_fold',
     '<usize as core::slice::SliceIndex<[T]>>::get': 'slice_get_usize',
     'core::slice::<impl [T]>::contains': 'slice_contains',
     'core::slice::<impl [T]>::binary_search_by': 'binary_search_by',
 }
 _SHIM_FACTS = None
 import re as _re
+CELL_MODELS = {'core::cell::Cell::<T>::get', 'core::cell::Cell::<T>::set', 'core::cell::Cell::<T>::replace'}
+UNICODE_FN = _re.compile(r'^core::unicode::unicode_data::(\w+)::lookup(?:_slow)?$|^core::unicode::(?:unicode_data::)?conversions::(to_upper|to_lower)$')
 # slice / pointer APIs that core implements with raw pointers; modelled on the interpreter's array values
 SLICE_MODELS = {
     'core::ptr::swap', 'core::ptr::swap_nonoverlapping',
@@ -371,6 +433,56 @@ class Program:
                             dflt = tr['path'] + '::' + method
                             if method in tr.get('items', []) and dflt in self.fns:
                                 return dflt
+        return None
+
+    @staticmethod
+    def unify_ty(pat, ty, binds):
+        """Match an impl's Self type pattern (may mention the impl's type parameters) against a concrete type."""
+        if not isinstance(pat, dict) or not isinstance(ty, dict):
+            return pat == ty
+        if pat.get('k') == 'param':
+            if pat['name'] in binds:
+                return binds[pat['name']] == ty
+            binds[pat['name']] = ty
+            return True
+        if not Program.has_param(pat):
+            return pat == ty
+        if pat.get('k') != ty.get('k'):
+            return False
+        k = pat['k']
+        if k == 'adt':
+            return pat['path'] == ty['path'] and len(pat['args']) == len(ty['args']) and \
+                all(Program.unify_ty(a, b, binds) for a, b in zip(pat['args'], ty['args']))
+        if k in ('ref', 'ptr'):
+            return bool(pat.get('mut')) == bool(ty.get('mut')) and Program.unify_ty(pat['to'], ty['to'], binds)
+        if k == 'tuple':
+            return len(pat['elems']) == len(ty['elems']) and all(Program.unify_ty(a, b, binds) for a, b in zip(pat['elems'], ty['elems']))
+        if k in ('array', 'slice'):
+            return pat.get('len') == ty.get('len') and Program.unify_ty(pat['elem'], ty['elem'], binds)
+        return False
+
+    def resolve_impl(self, trait, self_ty, method):
+        """`<self_ty as trait>::method` through the crate's impl index, generic (blanket) impls included.
+        -> (fn path, type arguments aligned with that function's `tparams` or None) or None."""
+        if trait is None or self_ty is None:
+            return None
+        for im in self.facts.get('impls', []):
+            if not (im.get('trait') == trait.split('::')[-1] or im.get('trait') == trait):
+                continue
+            binds = {}
+            if not Program.unify_ty(im['self_ty'], self_ty, binds):
+                continue
+            for it in im['items']:
+                if it['name'] == method and it['is_fn'] and it['path'] in self.fns:
+                    tp = self.fns[it['path']].get('tparams') or []
+                    return it['path'], ([binds[n] for n in tp] if all(n in binds for n in tp) else None)
+            for tr in self.facts.get('traits', []):
+                if tr['path'] == trait or tr['path'].split('::')[-1] == trait.split('::')[-1]:
+                    dflt = tr['path'] + '::' + method
+                    if method in tr.get('items', []) and dflt in self.fns:
+                        tp = self.fns[dflt].get('tparams') or []
+                        return dflt, ([self_ty] if tp == ['Self'] else None)
+            return None
         return None
 
     def adt(self, path):
@@ -917,8 +1029,14 @@ class Engine:
             return self.operand(rv['op'], st, fr)
         if k == 'ref':
             pj = rv['pl']['p']
-            if len(pj) == 1 and pj[0]['k'] == 'deref':
-                base = st.store.get(('L', fr.uid, rv['pl']['l']))
+            if pj and pj[-1]['k'] == 'deref':
+                if len(pj) == 1:
+                    base = st.store.get(('L', fr.uid, rv['pl']['l']))
+                else:
+                    try:
+                        base = self.load({'l': rv['pl']['l'], 'p': pj[:-1]}, st, fr)
+                    except Undecided:
+                        base = None
                 if base is not None and base[0] == 'dyn':
                     return base        # reborrow of a trait object keeps its vtable
             cell, path = self.resolve_place(rv['pl'], st, fr)
@@ -1107,6 +1225,11 @@ class Engine:
                 out.append((r, s2))
             return out
         # Shannon expansion on the smallest-domain atom
+        size = 1
+        for a in names:
+            size *= len(st.doms[a])
+        if size > (1 << 22):
+            raise Undecided('branch condition depends on %d inputs with %d joint values (too many to enumerate)' % (len(names), size), where)
         n = min(names, key=lambda a: (len(st.doms[a]), a))
         out = []
         for x in sorted(st.doms[n]):
@@ -1522,10 +1645,11 @@ class Engine:
             raise Undecided('call of an unknown callable %s' % term_str(v), sp)
         # ---- dynamic dispatch: resolve through the concrete type recorded at the unsizing coercion
         if res is not None and res.get('kind') == 'virtual' and vals and vals[0] is not None and vals[0][0] == 'dyn':
-            impl_fn = prog.find_impl_method(fn.get('trait'), vals[0][2], fn.get('method'))
-            if impl_fn is not None:
-                nfn = {'path': impl_fn, 'path_inst': impl_fn, 'resolved': {'path': impl_fn, 'path_inst': impl_fn, 'local': True, 'kind': 'item'},
-                       'trait': None}
+            ri = prog.resolve_impl(fn.get('trait'), vals[0][2], fn.get('method'))
+            if ri is not None:
+                impl_fn, iargs = ri
+                nfn = {'path': impl_fn, 'path_inst': impl_fn, 'trait': None,
+                       'resolved': {'path': impl_fn, 'path_inst': impl_fn, 'local': True, 'kind': 'item', 'args': iargs}}
                 return self.invoke(nfn, [vals[0][1]] + vals[1:], argtys, t, st, fr, work, leaves, depth + 1)
         # ---- a trait-method call the compiler could not resolve in generic code, on a receiver whose
         #      concrete type is known to the interpreter: resolve through the crate's impl index
@@ -1543,19 +1667,25 @@ class Engine:
                     self.prog.is_fieldless_enum('core::cmp::Ordering')
                     return ret(T('Cmp', (xs[0], xs[1]), 'E:core::cmp::Ordering'))
                 return ret(T(op, (xs[0], xs[1]), 'bool'))
+        if res is None and fn.get('trait') is not None and fn.get('trait') not in self.FN_TRAITS and vals and vals[0] is not None \
+                and vals[0][0] == 'dyn' and fn.get('self_kind') in ('ref', 'refmut'):
+            # `<T as Trait>::m(&self)` in generic code whose receiver is a trait object: T = dyn Trait, i.e. a virtual call
+            ri = prog.resolve_impl(fn.get('trait'), vals[0][2], fn.get('method'))
+            if ri is not None:
+                impl_fn, iargs = ri
+                nfn = {'path': impl_fn, 'path_inst': impl_fn, 'trait': None,
+                       'resolved': {'path': impl_fn, 'path_inst': impl_fn, 'local': True, 'kind': 'item', 'args': iargs}}
+                return self.invoke(nfn, [vals[0][1]] + vals[1:], argtys, t, st, fr, work, leaves, depth + 1)
         if res is None and fn.get('trait') is not None and fn.get('trait') not in self.FN_TRAITS and fr.targs and fn.get('args'):
             # generic code running for a known instantiation: `<T as Trait>::method` with T bound by the frame
             sargs = [prog.subst_ty(a, fr.targs) for a in fn['args']]
             if not Program.has_param(sargs[0]):
-                impl_fn = prog.find_impl_method(fn['trait'], sargs[0], fn.get('method'))
-                if impl_fn is not None and impl_fn in prog.fns:
-                    tgt = prog.fns[impl_fn]
-                    is_default = not tgt.get('impl_trait')
-                    if is_default or not tgt.get('tparams'):
-                        nfn = {'path': impl_fn, 'path_inst': impl_fn, 'trait': None, 'args': sargs if is_default else [],
-                               'resolved': {'path': impl_fn, 'path_inst': impl_fn, 'local': True, 'kind': 'item',
-                                            'args': sargs if is_default else []}}
-                        return self.invoke(nfn, vals, argtys, t, st, fr, work, leaves, depth + 1)
+                ri = prog.resolve_impl(fn['trait'], sargs[0], fn.get('method'))
+                if ri is not None:
+                    impl_fn, iargs = ri
+                    nfn = {'path': impl_fn, 'path_inst': impl_fn, 'trait': None,
+                           'resolved': {'path': impl_fn, 'path_inst': impl_fn, 'local': True, 'kind': 'item', 'args': iargs}}
+                    return self.invoke(nfn, vals, argtys, t, st, fr, work, leaves, depth + 1)
         if res is None and fn.get('trait') is not None and fn.get('trait') not in self.FN_TRAITS and vals:
             v = vals[0]
             hops = 0
@@ -1572,7 +1702,21 @@ class Engine:
                 self_ty = {'k': 'adt', 'path': v[1], 'local': True, 'args': []}
                 for _ in range(level):
                     self_ty = {'k': 'ref', 'mut': False, 'to': self_ty}
+                ri = prog.resolve_impl(fn.get('trait'), self_ty, fn.get('method')) if not prog.adts[v[1]].get('generics') else None
+                if ri is not None:
+                    impl_fn, iargs = ri
+                    nfn = {'path': impl_fn, 'path_inst': impl_fn, 'trait': None,
+                           'resolved': {'path': impl_fn, 'path_inst': impl_fn, 'local': True, 'kind': 'item', 'args': iargs}}
+                    return self.invoke(nfn, vals, argtys, t, st, fr, work, leaves, depth + 1)
+                # a generic receiver type (its arguments are not visible in the value): the impl whose Self is that ADT, if unique
                 impl_fn = prog.find_impl_method(fn.get('trait'), self_ty, fn.get('method'))
+                if impl_fn is None and prog.adts[v[1]].get('generics') and level == 0:
+                    cands = [im for im in prog.facts.get('impls', []) if (im.get('trait') == fn['trait'].split('::')[-1] or im.get('trait') == fn['trait'])
+                             and im['self_ty'].get('k') == 'adt' and im['self_ty'].get('path') == v[1]]
+                    if len(cands) == 1:
+                        for it in cands[0]['items']:
+                            if it['name'] == fn.get('method') and it['is_fn']:
+                                impl_fn = it['path']
                 if impl_fn is not None and impl_fn in prog.fns:
                     nfn = {'path': impl_fn, 'path_inst': impl_fn, 'trait': None,
                            'resolved': {'path': impl_fn, 'path_inst': impl_fn, 'local': True, 'kind': 'item'}}
@@ -1646,7 +1790,7 @@ class Engine:
         """Library functions that are modelled rather than interpreted: the formatting plumbing that only builds the
         message of a panic (its result feeds a diverging panic entry point and nothing else)."""
         return path.startswith('core::fmt::Arguments') or path.startswith('core::fmt::rt::') or RANGE_INDEX.match(path) is not None \
-            or path in SLICE_MODELS
+            or path in SLICE_MODELS or UNICODE_FN.match(path) is not None or path in CELL_MODELS
 
     @staticmethod
     def is_panic_path(path):
@@ -1732,6 +1876,26 @@ class Engine:
                 raise Undecided('model %s: argument is not an enum value' % path, sp)
             return v
 
+        if path in CELL_MODELS and vals and vals[0] is not None and vals[0][0] == 'ref':
+            # Cell<T> { value: UnsafeCell<T> { value: T } }: interior mutability through a shared reference
+            cref = vals[0]
+            inner_path = cref[2] + (('f', 0), ('f', 0))
+            cur = self.get_path(st.store.get(cref[1]), inner_path, st)
+            name = path.split('::')[-1]
+            if name == 'get':
+                return ret(cur)
+            new_v = vals[1] if len(vals) > 1 else None
+            if name in ('set', 'replace') and new_v is not None:
+                st.store[cref[1]] = self.set_path(st.store.get(cref[1]), inner_path, new_v, st)
+                return ret(('adt', '(tuple)', 0, ()) if name == 'set' else cur)
+        um = UNICODE_FN.match(path)
+        if um:
+            c_ = self.simp(vals[0], st)
+            if not is_scalar(c_):
+                raise Undecided('Unicode lookup on a non-scalar', sp)
+            if um.group(1):
+                return ret(T('Uni:' + um.group(1), (c_,), 'bool'))
+            return ret(('arr', tuple(T('Uni:%s%d' % (um.group(2), i), (c_,), 'char') for i in range(3))))
         if path in SLICE_MODELS or path == 'core::intrinsics::raw_eq':
             def arr_at(r):
                 if r is None or r[0] != 'ref':
